@@ -33,6 +33,8 @@ func (s sym) String() string {
 		return fmt.Sprintf("H%d[es=%v,eh=%v]", s.ID, s.ES, s.EH)
 	case 'i':
 		return "SETTINGS[initial-window=" + []string{"", "66535", "2^31-1"}[s.W] + "]"
+	case 'g':
+		return "GOAWAY[NO_ERROR]"
 	case 'C':
 		return fmt.Sprintf("C%d[eh=%v]", s.ID, s.EH)
 	case 'M':
@@ -107,6 +109,9 @@ func c08Alphabet() []sym {
 		// SETTINGS_INITIAL_WINDOW_SIZE raised: the difference is added to every stream window, and a window it takes above 2^31-1 is a
 		// connection error FLOW_CONTROL_ERROR (6.9.2)
 		sym{K: 'i', W: 1}, sym{K: 'i', W: 2},
+		// the client announces that it is going away (graceful, NO_ERROR): requests already made are still to be answered
+		// (RFC 7540 6.8: "... while still finishing processing of previously established streams")
+		sym{K: 'g'},
 	)
 	return a
 }
@@ -135,6 +140,7 @@ type mStream struct {
 }
 
 type model struct {
+	peerGone bool  // the peer has sent GOAWAY: what it opens afterwards may be served or refused
 	initWin  int64 // the peer's SETTINGS_INITIAL_WINDOW_SIZE as last sent (0 = never sent: 65535)
 	s        map[uint32]*mStream
 	highest  uint32
@@ -207,6 +213,29 @@ func stName(st *mStream) string {
 
 // step returns what the RFC permits as a reaction to f in the current state. It does not change the model.
 func (m *model) step(f sym) expect {
+	e := m.stepLive(f)
+	if m.peerGone && f.K != 'g' {
+		// the peer has said it is going away: whether it may still open streams is not settled by the RFC, and a server that
+		// has nothing left to answer may close at any moment - every such reaction is accepted on top of the usual ones; what
+		// stays demanded is that requests already being served are answered (judged at 'g' itself and at the end)
+		owed := false
+		for id, st := range m.s {
+			// (a stream the peer resets with this very frame is not owed an answer any more)
+			owed = owed || (st.dispatched && st.st == stHCR && !(f.K == 'R' && id == f.ID))
+		}
+		if !owed || f.K == 'H' || f.K == 'M' {
+			e.C = []uint32{0, cProtocol, 2, cFlowControl, 4, cStreamClose, 6, 7, 8, 9, 10, 11, 12, 13}
+		}
+		if st := m.s[f.ID]; f.ID != 0 && (st == nil || st.st == stIdle || (st.st == stClosed && st.how == byNone)) {
+			// a stream the server never accepted, on a connection both sides are leaving: refusing whatever arrives on it is
+			// as good an answer as the one its frame type would otherwise get
+			e.S = append(e.S, 7)
+		}
+	}
+	return e
+}
+
+func (m *model) stepLive(f sym) expect {
 	sErr := func(code uint32, why, key string) expect {
 		return expect{S: []uint32{code}, C: []uint32{code}, Why: why, Key: key}
 	}
@@ -220,6 +249,17 @@ func (m *model) step(f sym) expect {
 	switch f.K {
 	case 'p', 's', 'w', 'u':
 		return none("connection-level frame", "conn/"+string(f.K))
+	case 'g':
+		// with requests dispatched and not yet answered the connection has to stay; with nothing owed the server may as well
+		// close it (any code, or none)
+		owed := false
+		for _, st := range m.s {
+			owed = owed || (st.dispatched && st.st == stHCR)
+		}
+		if owed {
+			return none("GOAWAY(NO_ERROR) from the peer while requests are being served: they are still to be answered (6.8)", "conn/g[requests-in-progress]")
+		}
+		return expect{None: true, C: []uint32{0, cProtocol, 2, cFlowControl, 4, cStreamClose, 6, 7, 8, 9, 10, 11, 12, 13}, Why: "GOAWAY(NO_ERROR) from the peer with nothing owed: carrying on and closing are both fine", Key: "conn/g[idle]"}
 	case 'i':
 		delta := iwsValue(f) - m.initial()
 		live, gone := false, false
@@ -409,6 +449,10 @@ func (m *model) commit(f sym, e expect, serverReset bool) {
 	if f.K == 'p' || f.K == 's' || f.K == 'w' || f.K == 'u' {
 		return
 	}
+	if f.K == 'g' {
+		m.peerGone = true
+		return
+	}
 	if f.K == 'i' {
 		if e.None && !serverReset {
 			delta := iwsValue(f) - m.initial()
@@ -516,6 +560,8 @@ func (g *c08Gen) bytesFor(p *rt.Peer, m *model, f sym, caseID string, seq int) [
 		return rt.SettingsFrame()
 	case 'i':
 		return rt.SettingsFrame(wire.Setting{ID: 4, Val: uint32(iwsValue(f))})
+	case 'g':
+		return rt.GoAway(0, 0, "client going away")
 	case 'w':
 		return rt.WindowUpdate(0, 1000)
 	case 'u':
@@ -707,6 +753,11 @@ func c08Run(r *vf.Run, t *testing.T, id string, seq []sym, parked bool) {
 			r.Mark("state_frame_pairs", exp.Key)
 			where := fmt.Sprintf("step %d (%s; %s): %s", i, f, exp.Key, exp.Why)
 			// --- judge
+			if f.K == 'g' && obs.goaway == 0 && !obs.closed {
+				// the server says goodbye too (GOAWAY NO_ERROR) and goes on serving what it owes: not an error reaction
+				obs.goaway = -1
+				r.Mark("reactions", exp.Key+" -> GOAWAY(NO_ERROR) in return, connection kept")
+			}
 			connErr := obs.goaway >= 0 || obs.closed
 			switch {
 			case connErr:
